@@ -143,7 +143,8 @@ func Exec(w World) *Result {
 			done := make(chan struct{})
 			go func() { res = execPlain(w); close(done) }()
 			idle := int64(0)
-			for idle < 1<<42 {
+			// (the step bound ends a command in which some goroutine spins politely for ever)
+			for steps := 0; idle < 1<<42 && steps < 2000000; steps++ {
 				synctest.Wait()
 				select {
 				case <-done:
@@ -168,10 +169,12 @@ func Exec(w World) *Result {
 	verifsim.SetSelectHook(nil)
 	if res == nil {
 		// the command never returned although nothing can move any more
+		trace := "hang:no-world-installed"
 		if st := verifsim.Current(); st != nil {
+			trace = st.TraceHash()
 			st.Uninstall()
 		}
-		res = &Result{ExitCode: -1, Failed: true, Panic: "hang: the command did not return and no goroutine can make progress (" + deadlock + ")"}
+		res = &Result{ExitCode: -1, Failed: true, Trace: trace, Panic: "hang: the command did not return and no goroutine can make progress (" + deadlock + ")"}
 	}
 	return res
 }
